@@ -8,7 +8,7 @@ from props import clientreq_lib as L
 
 MODEL = "clientreq"
 MODULE = "Model.ClientReq"
-THEOREMS = ["C11_timer_at_issue", "C11_timer_released", "C11_bound", "C11_bound_any", "C11_timer_registered", "C11_late_reply_inert",
+THEOREMS = ["C11_timer_at_issue", "C11_timer_released", "C11_bound", "C11_bound_any", "C11_timer_registered", "C11_timer_never_rearmed", "C11_reply_first", "C11_issue_to_resolution", "C11_late_reply_inert",
             "C11_brokerclients_inv"]
 WHICH = ("C11",)
 
